@@ -20,9 +20,10 @@ def spec(chk):
     acts = ["SetV", "SetPk", "Sp", "Close"]
     return dict(
         cfgs=[
-            dict(name="eoc", objs=2, maxsp=1 if q else 2, depth=7 if q else 8, ideal_depth=8 if q else 10, eoc=True, acts=acts,
+            dict(name="eoc", objs=2, maxsp=1 if q else 2, depth=7 if q else 8, ideal_depth=8 if q else 9, eoc=True,
+                 acts=["SetV", "SetPk", "Sp"] if q else acts, vals=(1,) if q else (0, 1),
                  random=200 if q else 2000, sim=(40, 20) if q else (600, 30)),
-            dict(name="noeoc", objs=2, maxsp=1 if q else 2, depth=6 if q else 8, ideal_depth=7 if q else 9, eoc=False, acts=acts,
+            dict(name="noeoc", objs=2, maxsp=1 if q else 2, depth=6 if q else 7, ideal_depth=7 if q else 8, eoc=False, acts=acts,
                  random=100 if q else 1000),
         ] + ([] if q else [dict(name="eoc3", objs=3, maxsp=1, depth=6, ideal_depth=7, eoc=True, acts=acts + ["Expunge"], random=1000)]),
         mech_invs=MECH_INVS, mech_props=MECH_PROPS, abs_invs=ABS_INVS, abs_props=ABS_PROPS,
